@@ -97,11 +97,24 @@ def gauss_interval(f, a, b, p=12):
 
 
 # ------------------------------------------------------------------ reference indicators
+DOMAIN = {'calls_outside': 0, 'worst': 0.0}
+
+
 class Ref:
     def __init__(self, live, g, rspec):
         self.live, self.g, self.rspec = live, g, rspec
         self.L, self.T = g.L, live.ts[-1]
-        self.res, self.rfun = make_residual(rspec, self.L, self.T)
+        raw, self.rfun = make_residual(rspec, self.L, self.T)
+        L = self.L
+
+        def res(t, xh, gamma):
+            # the residual is a function on the parameter interval [0, L]: calls outside it are counted
+            xa = np.asarray(xh, dtype=float)
+            if xa.size and (xa.min() < 0 or xa.max() > L * (1 + 1e-14)):
+                DOMAIN['calls_outside'] += 1
+                DOMAIN['worst'] = max(DOMAIN['worst'], float(xa.max()) / L, -float(xa.min()) / L)
+            return raw(t, xh, gamma)
+        self.res = res
 
     def F(self, t, side):
         g = self.g
@@ -273,7 +286,7 @@ def cases(max_ops):
         fam = st.one_of(poly, poly, smooth) if N >= 17 else poly
         return st.fixed_dictionaries({
             'kind': st.sampled_from(['value', 'value', 'value', 'paths', 'symmetry']),
-            'spec': pairs.pair_specs(curves=('UnitSquare', 'PiSquare', 'LShape', 'Circle')),
+            'spec': pairs.pair_specs(curves=('UnitSquare', 'PiSquare', 'LShape', 'Circle', 'CircleGuarded')),
             'ops': gens.graded_histories(max_ops=max_ops, allow=('t', 'x', 'tx')),
             'N': st.just(N), 'res': fam, 'res2': poly, 'ei': st.integers(0, 10**6), 'workers': st.integers(1, 16),
             'rot': st.integers(1, 7),
@@ -313,6 +326,16 @@ def clip_residual(spec, orders):
 
 
 def body(case, rec, cap):
+    DOMAIN['calls_outside'] = 0
+    DOMAIN['worst'] = 0.0
+    nv = len(rec.violations)
+    _body(case, rec, cap)
+    if DOMAIN['calls_outside'] and len(rec.violations) == nv:
+        rec.violation('C09/%s/residual_called_outside_the_parameter_interval' % case['kind'],
+                      {'calls': DOMAIN['calls_outside'], 'worst_x_hat_over_L': DOMAIN['worst']}, dict(case))
+
+
+def _body(case, rec, cap):
     rec.case()
     from vlib.meshdrive import exc_site
     import src.error_estimator as eem
@@ -509,7 +532,7 @@ def body(case, rec, cap):
                 return
             ca, sa = math.cos(ang), math.sin(ang)
             cx = cy = 0.0
-            if name != 'Circle':
+            if not g.circle:
                 cx = cy = 0.5 * (g.breaks[1] - g.breaks[0])
             sp = case['res']
 
